@@ -282,6 +282,13 @@ func vc_Streamer_Stream_ensures_report(s *Streamer, ctx context.Context, sendTra
 	return (res == nil) == (err == nil)
 }
 
+// C06: the context Error() consults for its cancellation filter is the caller's own context of this attempt — not a
+// context that Stream itself ends (a derived context that is cancelled when Stream returns would make Error() drop
+// every reason the reader recorded)
+func vc_Streamer_Stream_ensures_callerctx(s *Streamer, ctx context.Context, sendTransaction SendTransactionFunc, res error) bool {
+	return s.ctx == ctx
+}
+
 // ---- Error ----
 
 func vc_Streamer_Error_requires(s *Streamer) bool { return s != nil && s.ctx != nil }
